@@ -98,10 +98,12 @@ namespace pika::mpi::experimental::detail {
     void add_suspend_resume_request_callback(OperationState& op_state)
     {
         PIKA_ASSERT(op_state.completed == false);
+        PIKA_VERIF_POST("mpi.reg", &op_state, (std::uint64_t) (std::uintptr_t) (op_state.request), 1);
         detail::add_request_callback(
             [&op_state](int status) mutable {
                 PIKA_DETAIL_DP(
                     mpi_tran<5>, debug(str<>("callback_void_suspend_resume"), "status", status));
+                PIKA_VERIF_POST("mpi.cb", &op_state, 1, status);
                 op_state.ts = {};
                 // wake up the suspended thread
                 {
@@ -109,6 +111,7 @@ namespace pika::mpi::experimental::detail {
                     op_state.status = status;
                     op_state.completed = true;
                 }
+                PIKA_VERIF_POINT("mpi.pt.notify", &op_state, 0, 0);
                 op_state.cond_var.notify_one();
             },
             op_state.request);
@@ -121,12 +124,15 @@ namespace pika::mpi::experimental::detail {
     template <typename OperationState>
     void add_new_task_request_callback(OperationState& op_state)
     {
+        PIKA_VERIF_POST("mpi.reg", &op_state, (std::uint64_t) (std::uintptr_t) (op_state.request), 2);
         detail::add_request_callback(
             [&op_state](int status) mutable {
                 PIKA_DETAIL_DP(mpi_tran<5>, debug(str<>("schedule_task_callback")));
+                PIKA_VERIF_POST("mpi.cb", &op_state, 2, status);
                 op_state.ts = {};
                 if (status != MPI_SUCCESS)
                 {
+                    PIKA_VERIF_POST("mpi.sig", &op_state, 5, status);
                     ex::set_error(std::move(op_state.r),
                         std::make_exception_ptr(
                             mpi::exception(status, "new_task_request_callback")));
@@ -140,6 +146,7 @@ namespace pika::mpi::experimental::detail {
                     auto snd0 =
                         ex::schedule(default_pool_scheduler(p)) | ex::then([&op_state]() mutable {
                             PIKA_DETAIL_DP(mpi_tran<5>, debug(str<>("set_value")));
+                            PIKA_VERIF_POST("mpi.sig", &op_state, 6, 0);
                             ex::set_value(std::move(op_state.r));
                         });
                     ex::start_detached(std::move(snd0));
@@ -155,10 +162,13 @@ namespace pika::mpi::experimental::detail {
     template <typename OperationState>
     void add_continuation_request_callback(OperationState& op_state)
     {
+        PIKA_VERIF_POST("mpi.reg", &op_state, (std::uint64_t) (std::uintptr_t) (op_state.request), 3);
         detail::add_request_callback(
             [&op_state](int status) mutable {
                 PIKA_DETAIL_DP(mpi_tran<5>, debug(str<>("callback_void")));
+                PIKA_VERIF_POST("mpi.cb", &op_state, 3, status);
                 op_state.ts = {};
+                PIKA_VERIF_POST("mpi.sig", &op_state, 7, status);
                 set_value_error_helper(status, std::move(op_state.r));
             },
             op_state.request);
